@@ -193,8 +193,15 @@ package collection
 //@   ensures [range] 0 <= result && result <= rw.size
 //@   modifies nothing
 //@   inline always
+//@ func (*RollingWindow).spanAt
+//@   prop C09, C01
+//@   requires rwOK(rw)
+//@   ensures [span] now >= rw.lastTime ==> result == rwSpan(rw, now)
+//@   ensures [range] 0 <= result && result <= rw.size
+//@   modifies nothing
+//@   inline always
 
-// updateOffset at time `now` (the clock is read twice; one call is one instant): the `span` buckets after the
+// updateOffset at time `now` (ONE clock reading decides both the span and the realignment): the `span` buckets after the
 // old offset are emptied, every other bucket is untouched, the offset advances by span (mod size) and lastTime
 // becomes the start of the bucket interval that contains `now`.
 //@ func (*RollingWindow).updateOffset
@@ -208,20 +215,25 @@ package collection
 //@   observe Elapsed = now - old(rw.lastTime)
 //@   observe Offset = old(rw.offset)
 //@   replay rw_updateOffset
+//@   replay-for offset-and-bucket-start-advance-together rw_two_clock_reads
 //@   replay-assume old(rw.size) <= 4 && old(rw.interval) <= 10 && now - old(rw.lastTime) <= 100
 //@   loop 1 entry [starts-at-zero] i == 0
 //@   loop 1 invariant 0 <= i && i <= span && span <= rw.size && offset == old(rw.offset) && rw.size == old(rw.size) && rw.win == old(rw.win)
 //@   loop 1 invariant rw.win.size == rw.size && rw.win.buckets == old(rw.win.buckets) && rw.offset == old(rw.offset)
 //@   loop 1 invariant forall(j, 0, rw.size, wrap(j - offset - 1, rw.size) < i ==> rw.win.buckets[j].Sum == 0.0 && rw.win.buckets[j].Count == 0)
 //@   loop 1 invariant forall(j, 0, rw.size, wrap(j - offset - 1, rw.size) >= i ==> rw.win.buckets[j].Sum == old(rw.win.buckets[j].Sum) && rw.win.buckets[j].Count == old(rw.win.buckets[j].Count))
-//@   ensures [same-instant] calls(timex.Now) == 2 ==> true
-//@   ensures [offset] ret(timex.Now, 0, 2) == now && now >= old(rw.lastTime) ==> rw.offset == wrap(old(rw.offset) + sp, rw.size)
-//@   ensures [expired-emptied] ret(timex.Now, 0, 2) == now && now >= old(rw.lastTime) ==>
+//@   ensures [one-clock-reading] calls(timex.Now) == 1
+//@   ensures [offset] now >= old(rw.lastTime) ==> rw.offset == wrap(old(rw.offset) + sp, rw.size)
+//@   ensures [expired-emptied] now >= old(rw.lastTime) ==>
 //@     | forall(j, 0, rw.size, wrap(j - old(rw.offset) - 1, rw.size) < sp ==> rw.win.buckets[j].Sum == 0.0 && rw.win.buckets[j].Count == 0)
-//@   ensures [others-kept] ret(timex.Now, 0, 2) == now && now >= old(rw.lastTime) ==>
+//@   ensures [others-kept] now >= old(rw.lastTime) ==>
 //@     | forall(j, 0, rw.size, wrap(j - old(rw.offset) - 1, rw.size) >= sp ==> rw.win.buckets[j].Sum == old(rw.win.buckets[j].Sum) && rw.win.buckets[j].Count == old(rw.win.buckets[j].Count))
-//@   ensures [aligned] ret(timex.Now, 0, 2) == now && now >= old(rw.lastTime) && sp > 0 ==> rw.lastTime <= now && now - rw.lastTime < rw.interval
-//@   ensures [phase] ret(timex.Now, 0, 2) == now && now >= old(rw.lastTime) ==> (rw.lastTime - old(rw.lastTime)) % rw.interval == 0
+//@   ensures [aligned] now >= old(rw.lastTime) && sp > 0 ==> rw.lastTime <= now && now - rw.lastTime < rw.interval
+//@   ensures [phase] now >= old(rw.lastTime) ==> (rw.lastTime - old(rw.lastTime)) % rw.interval == 0
+// the ring offset and the start time of the current bucket advance TOGETHER, by the number of buckets that the
+// first clock reading found elapsed - also when the clock moves on (to a later bucket) before lastTime is realigned;
+// otherwise every value already in the window would count as one bucket younger and outlive the window
+//@   ensures [offset-and-bucket-start-advance-together] now >= old(rw.lastTime) && 0 < sp && sp < rw.size && ret(timex.Now, 0, last) >= now ==> rw.lastTime == old(rw.lastTime) + sp * rw.interval
 //@   ensures [no-boundary-no-change] now >= old(rw.lastTime) && sp == 0 ==> rw.lastTime == old(rw.lastTime) && rw.offset == old(rw.offset)
 //@   ensures [shape] rw.size == old(rw.size) && rw.win == old(rw.win) && rw.interval == old(rw.interval) && rw.win.buckets == old(rw.win.buckets)
 //@   modifies rw.offset, rw.lastTime, Bucket.Sum, Bucket.Count
@@ -314,7 +326,7 @@ package collection
 //@   prop C09, C01
 //@   requires rwOK(rw)
 //@   let now = ret(timex.Now, 0, 1)
-//@   let same = calls(timex.Now) == 2 && ret(timex.Now, 0, 2) == now && now >= old(rw.lastTime) || calls(timex.Now) == 1 && now >= old(rw.lastTime)
+//@   let same = calls(timex.Now) == 2 && now >= old(rw.lastTime) || calls(timex.Now) == 1 && now >= old(rw.lastTime)
 //@   let sp = old(rwSpan(rw, now))
 //@   let cur = wrap(old(rw.offset) + sp, rw.size)
 //@   ensures [lands-in-current-bucket] same ==> rw.offset == cur && rw.win.buckets[cur].Sum == ite(sp > 0, 0.0, old(rw.win.buckets[cur].Sum)) + v && rw.win.buckets[cur].Count == ite(sp > 0, 0, old(rw.win.buckets[cur].Count)) + 1
